@@ -50,7 +50,7 @@ def cfg(pid, tier):
         S("int", "bool", "octets", "utf8", "bits", "null", "struct2", "choice2", "sliceint", "slicestruct"),
         TagPairs=S((0, 1), (30, 31), (127, 128), (16383, 16384)) if not quick else S((0, 1), (30, 31), (127, 128)),
         Leafs=S("small", "boundary"), Seeds=S(1, 2) if quick else S(1, 2, 3, 4, 5, 6),
-        Strategies=S("none", "all", "rand", "only", "holes", "emptylists", "defaults"),
+        Strategies=S("none", "all", "rand", "only", "holes", "emptylists", "defaults", "deepest"),
         FuzzFirst="{" + ", ".join(str(a) for a in ALPHA) + "}" if pid == "C16" else "{}",
         EmitOneIn=1)
     return c
@@ -79,8 +79,8 @@ def expander(pid, tier, types):
                 for j, prm in enumerate(["tagNum:2097152", "tagNum:2097152,explicit", "tagNum:268435455", "tagNum:16383,explicit"]):
                     out.append(dict(id="%s.h%d" % (bid, j), mode="prim", type=c["type"], val=v, params=prm, seed=seed0))
         elif mode == "schema":
-            if quick and c["present"] in ("only", "defaults") and (c["leaf"] != "small" or c["seed"] != 1):
-                return []      # quick: each-single-optional-present and members-at-their-DEFAULT once per type
+            if quick and c["present"] in ("only", "defaults", "deepest") and (c["leaf"] != "small" or c["seed"] != 1):
+                return []      # quick: each-single-optional-present, members-at-their-DEFAULT, deepest-path once per type
             onlys = [0] if c["present"] != "only" else list(range(0, 12))
             for i, t in enumerate(types):
                 for k in onlys:
@@ -109,6 +109,10 @@ CL = {
 }
 
 
+def seed_of(j):
+    return core.seed() * 1000 + 77 + j
+
+
 def check(pid, tier, replay=None):
     import json
     import random
@@ -131,12 +135,19 @@ def check(pid, tier, replay=None):
         if pid == "C16" and tier == "quick":
             cap = 1500
         if len(behs) > cap:
-            keep = lambda b: b["mode"] in ("prim", "fuzz") or b.get("present") in ("only", "defaults")   # noqa: E731  systematic cases
+            keep = lambda b: (b["mode"] in ("prim", "fuzz") or b.get("present") in ("only", "defaults", "deepest")   # noqa: E731  systematic cases
+                              or any(m["tag"] < 0 for m in b.get("members") or []))
             prim = [b for b in behs if keep(b)]
             rest = [b for b in behs if not keep(b)]
             rnd.shuffle(rest)
             behs = prim + rest[: max(0, cap - len(prim))]
         behs.append(dict(id="%s-types" % pid, mode="types", type="", params="", seed=0))
+        if pid in ("C04", "C05"):
+            # every leaf of the schema embedded in the top-level record (one value per way down from CHFRecord), and in the
+            # record body
+            for j, (tn, leaf) in enumerate([("CHFRecord", "small"), ("ChargingRecord", "small")] + ([("CHFRecord", "boundary")] if tier != "quick" else [])):
+                for k in range(16):
+                    behs.insert((k * 331 + j * 17) % max(1, len(behs)), dict(id="%s-paths%d.%d" % (pid, j, k), mode="schema", type=tn, leaf=leaf, present="paths", only=k, seed=seed_of(j), params="", n=0))
         if pid == "C16":
             # size-only inputs (1.5 M repeated / 1.2 M nested constructed headers), each decode in a child process
             behs.append(dict(id="C16-deep", mode="deep", type="", params="", seed=0, n=1500000))
